@@ -267,7 +267,7 @@ fn approx_strategy() -> impl Strategy<Value = ApproxCase> {
 pub fn run(run: &mut Run) {
     run.technique = "proptest random search with shrinking; oracle = the scalar approx predicates on corresponding bounds + literal Display strings".into();
     run.rule = "pairs of f64/f32 intervals over all 3x3 kind combinations, the second obtained by perturbing each bound of the first by ulps / relative / absolute amounts, with epsilon / max_relative / max_ulps placed just below, at and just above the actual bound differences; non-trivial = the two bounds disagree about the verdict, or the kinds differ; Display over f64, f32, i32, &str, String, char".into();
-    let n = run.tier.pick(30_000, 600_000);
+    let n = run.tier.pick(150_000, 6_000_000);
     run.prop("approx", n, approx_strategy(), approx_case);
     let ds = (0u8..3, (base_value(false), base_value(false)), (any::<i32>(), any::<i32>()), ("[ -~]{0,6}", "[ -~]{0,6}"), (any::<char>(), any::<char>()))
         .prop_map(|(kind, f, i, s, c)| DisplayCase { kind, f: (X(f.0), X(f.1)), i, s, c });
